@@ -162,11 +162,9 @@ theorem attack1_shape {cfg : Cfg} {p p' : PS} {x : Aid × Act} (h : attack1 cfg 
         have hw : p'.w = w' ∧ p'.t = t' := by
           split at h
           · split at h
-            · cases h
-            · split at h
-              · exact accrue_map_ok h
-              · obtain ⟨r', _, he⟩ := map_ok h
-                subst he; exact ⟨rfl, rfl⟩
+            · exact accrue_map_ok h
+            · obtain ⟨r', _, he⟩ := map_ok h
+              subst he; exact ⟨rfl, rfl⟩
           · simp only [Except.ok.injEq] at h
             subst h; exact ⟨rfl, rfl⟩
         simp [Except.map, hw.1, hw.2]
@@ -302,8 +300,9 @@ theorem xinvA_move {w0 : World} (hcfg : CfgOK w0) {p p' : PS} {a : Aid} {d : Pos
 def MovesOK (w0 : World) (acts : List (Aid × Act)) : Prop :=
   ∀ x ∈ acts, x.1 < w0.n ∧ (MoveCall.move x.1 x.2.move).inSpace w0 = true
 
-theorem multi1_hist {w0 : World} (hcfg : CfgOK w0) (p : PS) (x : Aid × Act) (p' : PS) (hX : XInvA w0 p.w)
-    (hx : x.1 < w0.n ∧ (MoveCall.move x.1 x.2.move).inSpace w0 = true) (h : multi1 p x = .ok p') :
+theorem multi1_hist {cfg : Cfg} {w0 : World} (hcfg : CfgOK w0) (p : PS) (x : Aid × Act) (p' : PS)
+    (hX : XInvA w0 p.w) (hx : x.1 < w0.n ∧ (MoveCall.move x.1 x.2.move).inSpace w0 = true)
+    (h : multi1 cfg p x = .ok p') :
     runGOpSeq p.w p.t (.move (.move x.1 x.2.move)) = .ok (p'.w, p'.t) ∧ XInvA w0 p'.w := by
   unfold multi1 at h
   split at h
@@ -311,9 +310,13 @@ theorem multi1_hist {w0 : World} (hcfg : CfgOK w0) (p : PS) (x : Aid × Act) (p'
   · split at h
     · cases h
     · rename_i p1 hm
-      obtain ⟨hw, ht⟩ := accrue_map_ok h
-      rw [hw, ht]
-      exact xinvA_move hcfg hX hx.1 hx.2 hm
+      split at h
+      · cases h
+      · split at h
+        · cases h
+        · obtain ⟨hw, ht⟩ := accrue_map_ok h
+          rw [hw, ht]
+          exact xinvA_move hcfg hX hx.1 hx.2 hm
 
 theorem traffic1_hist {cfg : Cfg} {w0 : World} (hcfg : CfgOK w0) (p : PS) (x : Aid × Act) (p' : PS)
     (hX : XInvA w0 p.w) (hx : x.1 < w0.n ∧ (MoveCall.move x.1 x.2.move).inSpace w0 = true)
@@ -387,7 +390,7 @@ theorem stepPS_hist {cfg : Cfg} {w0 : World} (hcfg : CfgOK w0) {p p' : PS} {acts
   · exact stepBattle_hist hcfg hX hA h
   · obtain ⟨act, hl, hr, hX'⟩ := stepMaze_hist hcfg hX hA.1 hA.2 h
     rw [hl]; exact ⟨hr, hX'⟩
-  · exact foldE_hist multi1 (fun x => GOp.move (.move x.1 x.2.move)) (XInvA w0)
+  · exact foldE_hist (multi1 cfg) (fun x => GOp.move (.move x.1 x.2.move)) (XInvA w0)
       (fun x => x.1 < w0.n ∧ (MoveCall.move x.1 x.2.move).inSpace w0 = true)
       (multi1_hist hcfg) acts p p' hX hA h
   · exact foldE_hist (traffic1 cfg) (fun x => GOp.move (.move x.1 x.2.move)) (XInvA w0)
